@@ -15,10 +15,10 @@ from ..common import *
 
 HAND = [
     'let v = Resources.*[ Type == "AWS::S3::Bucket" ]\nrule r0 when %v !empty {\n  %v.Properties.Size >= 1\n}\nrule r1 {\n  r0\n}\n'
-    'rule r2 {\n  Resources[ k | Type == "AWS::S3::Bucket" ] !empty\n  let c = count(%k)\n  %c >= 1\n}\n',
+    'rule r2 when Resources[ k | Type == "AWS::S3::Bucket" ] !empty {\n  let c = count(%k)\n  %c == 1\n}\n',
     'let v = Resources.*[ Type == "AWS::IAM::Role" ]\nrule r0 {\n  %v empty\n}\nrule r1 when r0 {\n  Resources.* { Type exists }\n}\n'
-    'rule r2 {\n  Resources[ k | Type == "AWS::IAM::Role" ] empty\n}\n',
-    'let v = this\nrule r0 { %v is_struct }\nrule r1 { not r0 }\n',
+    'rule r2 when Resources[ k | Type == "AWS::IAM::Role" ] !empty {\n  let c = count(%k)\n  %c == 1\n}\n',
+    'let v = this\nrule r0 {\n  %v is_struct\n}\nrule r1 {\n  not r0\n}\nrule r2 {\n  r1 or\n  r0\n}\n',
 ]
 HAND_DOCS = [
     {"Resources": {"b1": {"Type": "AWS::S3::Bucket", "Properties": {"Size": 1}}, "role": {"Type": "AWS::IAM::Role"}}},
